@@ -364,7 +364,8 @@ func genConservative(tier string, rng *RNG, emit func(Case)) {
 		}
 	})
 	// regression inputs for the trailing-space / line-break cases
-	docs = append(docs, []byte("### bar    ###\n"), []byte("aaa     \nbbb\n"), []byte("foo\n*bar*\n"), []byte("foo\n`bar`\n"), []byte("a\n![b](c)\n"))
+	docs = append(docs, []byte("||\n|\nrow one\nrow two\n"), []byte("|\n|\nx\n"), []byte("| |\n||\ny\n"), []byte("a\n|\n|\n"), []byte("|||\n|:|\nz\n"), []byte("tab\\\tseparated\n"), []byte("foo\t\t\nbar\n"), []byte("foo \t\nbar\n"),
+		[]byte("### bar    ###\n"), []byte("aaa     \nbbb\n"), []byte("foo\n*bar*\n"), []byte("foo\n`bar`\n"), []byte("a\n![b](c)\n"))
 	for ci := range consClauses {
 		for bi := range consBases {
 			for _, d := range docs {
